@@ -22,3 +22,15 @@ Check @ab_search_spec.
 
 (** non-vacuity incl. table reuse across searches (depth 2 then 3, 3 then 3) *)
 Definition C11_nonvacuous := toy_search_spec.
+
+(** * For the real board model and the concrete table of Model/TT.v: the table law is PROVED
+    (board_tt_law); HashValue (the hash identifies the search value) stays the hypothesis the property
+    itself makes. *)
+From Morlock.Lemmas Require Import SearchBoardInst1 SearchBoardInst2 SearchBoardInst SearchBoardInst5.
+Definition C11_board_tt_law := board_tt_law.
+Check board_tt_law.
+Print Assumptions board_tt_law.
+Definition C11_board_search_spec := @board_search_spec.
+Check @board_search_spec.
+Print Assumptions board_search_spec.
+Definition C11_board_nonvacuous := kr_run_2_table.
